@@ -241,7 +241,7 @@ class C07(Prop):
              ['patch', 'v1', {'display_name': 'üñí ok', 'persisted': True}], ['val', 'v1', 2],
              ['dev', {'display_name': 'hub two', 'normal_password': 'pw'}]],
             []])
-        c5 = dict(base, name='redis-quotes (C06 string codec)', driver='redis', phases=[
+        c5 = dict(base, name='redis-special-strings', driver='redis', phases=[
             [['add', {'id': 'v1', 'type': 'number'}], ['patch', 'v1', {'display_name': 'a"b\\c'}]],
             []])
         c6 = dict(base, name='disabled+persisted+write-transform (boot crash)', phases=[
@@ -252,7 +252,19 @@ class C07(Prop):
             []],
             canon=[['w', 'NOT( $ )', 'NOT($)'], ['w', 'NOT($)', 'NOT($)'], ['r', 'NOT($)', 'NOT($)']],
             xf=[['NOT($)', 'not', 0]])
-        return [c1, c2, c3, c4, c5, c6]
+        c7 = dict(base, name='same pending edit twice, then restart', phases=[
+            [['sput', [self._slave_doc('garden', 1, {'name': 'garden', 'display_name': 'G', 'flags': 'f'})]],
+             ['add', {'id': 'v1', 'type': 'number'}], ['patch', 'v1', {'persisted': True}], ['val', 'v1', 4],
+             ['sleep', 5000],
+             ['sfwd', 'garden', {'display_name': 'Garden'}], ['sfwd', 'garden', {'display_name': 'Garden shed'}],
+             ['sfwdw', 'garden', {'enabled': True, 'host': 'hub.local'}], ['sfwdw', 'garden', {'host': 'hub2.local'}]],
+            []])
+        c8 = dict(base, name='one failing write of the save loop', phases=[
+            [['add', {'id': 'v1', 'type': 'number'}], ['patch', 'v1', {'persisted': True}], ['val', 'v1', 3],
+             ['sleep', 5000], ['failnext', 'ports'], ['val', 'v1', 7], ['sleep', 9000], ['disarm']],
+            []])
+        c9 = dict(c8, name='one failing write of the save loop (redis)', driver='redis')
+        return [c1, c2, c3, c4, c5, c6, c7, c8, c9]
 
     @staticmethod
     def _slave_doc(name, k, attrs):
@@ -260,12 +272,14 @@ class C07(Prop):
                 'admin_password_hash': hashlib.sha256(name.encode()).hexdigest(), 'poll_interval': 10 * k,
                 'listen_enabled': False, 'last_sync': -1, 'attrs': attrs, 'provisioning': []}
 
-    def gen(self, rng, tier):
+    def gen(self, rng, tier, vids=None):
+        VIDS = vids or globals()['VIDS']
         driver = 'redis' if rng.random() < 0.3 else 'json'
-        strings = SAFE if driver == 'redis' else SPECIAL
+        strings = SPECIAL
         canon, xf = [], []
         nphases = rng.choice([2, 2, 3])
         live = {}              # vport id -> type
+        defs = {}              # vport id -> definition it was (first) added with
         slaves = set()
         phases = []
         maxops = 14 if tier == 'quick' else 30
@@ -298,7 +312,7 @@ class C07(Prop):
                     else:
                         # acyclic by construction: refer only to ports that sort before this one, statics, unknown ids
                         refs = [v for v in VIDS if v < pid] + ['lp2', 'nosuch']
-                        raw, c = gen_expr(rng, refs, rng.choice([0, 1, 2, 3]), safe=driver == 'redis')
+                        raw, c = gen_expr(rng, refs, rng.choice([0, 1, 2, 3]))
                         canon.append(['e', raw, c])
                         canon.append(['e', c, c])
                         a[k] = raw
@@ -345,6 +359,7 @@ class C07(Prop):
                     ops.append(['add', d])
                     if pid not in live:
                         live[pid] = typ
+                        defs[pid] = d
                         if rng.random() < 0.5:
                             ops.append(['patch', pid, {'persisted': True}])
                             ops.append(['val', pid, (rng.random() < 0.5) if typ == 'boolean' else
@@ -353,6 +368,7 @@ class C07(Prop):
                     pid = rng.choice(VIDS + ['lp1', 'nosuch'])
                     ops.append(['del', pid])
                     live.pop(pid, None)
+                    defs.pop(pid, None)
                 elif r < 0.62:
                     pid = rng.choice(list(live) + ['lp1', 'lp2'] + (['nosuch'] if rng.random() < 0.1 else []))
                     static = pid.startswith('lp')
@@ -375,8 +391,7 @@ class C07(Prop):
                     if rng.random() < 0.4:
                         d['name'] = rng.choice(['hub1', 'my-hub_2', 'X'])
                     if rng.random() < 0.5:
-                        d[rng.choice(['admin', 'normal', 'viewonly']) + '_password'] = rng.choice(['', 'pw', 'sécret"\\'[:32]]
-                                                                                                 if driver == 'json' else ['', 'pw', 'secret'])
+                        d[rng.choice(['admin', 'normal', 'viewonly']) + '_password'] = rng.choice(['', 'pw', 'sécret"\\'[:32]])
                     if d:
                         ops.append(['dev', d])
                 elif r < 0.93:
@@ -398,8 +413,57 @@ class C07(Prop):
                     nm = rng.choice(sorted(slaves) + ['slv9'])
                     ops.append(['sdel', nm])
                     slaves.discard(nm)
+            if ph < nphases - 1:
+                ops.extend(self._tail(rng, s, live, defs, slaves, VIDS))
             phases.append(ops)
         return {'driver': driver, 'canon': canon, 'xf': xf, 'phases': phases}
+
+    def _tail(self, rng, s, live, defs, slaves, VIDS):
+        """what happens right before a restart: (a) one storage write of the save loop fails once (transient error) and
+        the hub is given a few save-loop periods; (b) the SAME attribute is edited twice in a row (port, device, offline
+        slave device attribute / webhooks parameter) with nothing else written afterwards"""
+        ops = []
+        r = rng.random()
+        if r < 0.3:
+            pid = rng.choice(sorted(live)) if live and rng.random() < 0.7 else None
+            if pid is None:
+                pid = rng.choice(VIDS)
+                if pid not in live:
+                    d = {'id': pid, 'type': rng.choice(['number', 'boolean'])}
+                    ops.append(['add', d])
+                    live[pid] = d['type']
+                    defs[pid] = d
+            d = defs.get(pid, {'type': live[pid]})
+            if d['type'] == 'boolean':
+                v1, v2 = rng.choice([(True, False), (False, True)])
+            elif 'choices' in d:
+                v1, v2 = rng.choice([(1, 2), (2, 5), (5, 1)])
+            else:
+                v1, v2 = rng.choice([(0, 2), (4, 10), (10, 42), (50, 0)])
+            ops += [['patch', pid, {'persisted': True, 'enabled': True, 'expression': '', 'transform_read': '',
+                                    'transform_write': ''}],
+                    ['val', pid, v1], ['sleep', 5000],
+                    ['failnext', 'ports'], ['val', pid, v2], ['sleep', 9000], ['disarm']]
+        if r > 0.2 and rng.random() < 0.7:
+            ops.append(['sleep', 5000])          # every pending save has been written
+            kind = rng.choice(['slave-attr', 'slave-attr', 'slave-webhooks', 'port', 'device'])
+            a, b = rng.sample(['one', 'two', 'üç', 'x"y', 'four 4', ''], 2)
+            if kind.startswith('slave'):
+                if not slaves:
+                    ops.append(['sput', [self._slave_doc('slv1', 1, {'name': 'slv1', 'display_name': 'S1', 'flags': 'f'})]])
+                    slaves.add('slv1')
+                nm = sorted(slaves)[0]
+                if kind == 'slave-attr':
+                    attr = rng.choice(['display_name', 'timezone'])
+                    ops += [['sfwd', nm, {attr: a}], ['sfwd', nm, {attr: b}]]
+                else:
+                    ops += [['sfwdw', nm, {'enabled': True, 'host': a or 'h'}], ['sfwdw', nm, {'host': b or 'g'}]]
+            elif kind == 'port':
+                pid = rng.choice(sorted(live) + ['lp1'])
+                ops += [['patch', pid, {'tag': a}], ['patch', pid, {'tag': b}]]
+            else:
+                ops += [['dev', {'display_name': a}], ['dev', {'display_name': b}]]
+        return ops
 
     def shrink_candidates(self, case):
         # every candidate costs 2-3 process boots: a handful of coarse candidates per round only
@@ -600,7 +664,7 @@ class C07(Prop):
             rep = driver.ask(f'slave {hx(name)}')
             mv['slaves'][name] = rep
             attrs = ','.join(f'{n}={enc(v)}' for n, v in sorted(s.get('attrs', {}).items())) or '-'
-            prov = ','.join(sorted(s.get('provisioning', []))) or '-'
+            prov = ','.join(sorted(x for x in s.get('provisioning', []) if x not in ('webhooks', 'reverse'))) or '-'
             rv['slaves'][name] = (f'ok enabled={1 if s["enabled"] else 0} scheme={hx(s["scheme"])} host={hx(s["host"])} '
                                   f'port={s["port"]} path={hx(s["path"])} pw={hx(s["admin_password_hash"])} '
                                   f'poll={s["poll_interval"]} listen={1 if s["listen_enabled"] else 0} last={s["last_sync"]} '
@@ -784,12 +848,6 @@ class C07(Prop):
                                                                        'results': [o['op_results'] for o in outs]}}
 
     def known_match(self, finding, case, failure):
-        if finding.get('id') == 'C07-redis-string-codec':
-            if case.get('driver') != 'redis':
-                return False
-            blob = json.dumps(case['phases'], ensure_ascii=False)
-            # strings in the case that contain a quote, a backslash or a control character (JSON-escaped in blob)
-            return '\\"' in blob or '\\\\' in blob or '\\u00' in blob or '\\n' in blob or '\\t' in blob
         return False
 
 
